@@ -781,3 +781,41 @@ impl Prop for C12 {
         vec!["root-directory-probe", "rename/remove/create-kind", "several-roots", "dotdot-spelling"]
     }
 }
+
+/// Fuzz decoder (synthetic part only).
+pub fn decode(u: &mut arbitrary::Unstructured) -> arbitrary::Result<Value> {
+    use crate::trees::{EntrySpec, Leaf};
+    let mut entries = Vec::new();
+    for _ in 0..u.int_in_range(0..=8)? {
+        let depth = u.int_in_range(1..=4)?;
+        let mut path = Vec::new();
+        for _ in 0..depth {
+            path.push(u.int_in_range(0..=9)?);
+        }
+        let leaf = if u.int_in_range(0..=7)? == 0 { Leaf::EmptyDir } else { Leaf::File { ext: u.int_in_range(0..=4)?, content: vec![b'x'] } };
+        entries.push(EntrySpec { path, leaf });
+    }
+    let roots = match u.int_in_range(0..=4)? {
+        0 => Roots::Nested(u.arbitrary()?),
+        1 => Roots::Disjoint,
+        _ => Roots::One,
+    };
+    let mut probes = Vec::new();
+    for _ in 0..u.int_in_range(1..=10)? {
+        let target = match u.int_in_range(0..=9)? {
+            0..=3 => Target::File(u.arbitrary()?),
+            4..=6 => Target::Dir(u.arbitrary()?),
+            7 => Target::Outside,
+            8 => Target::DottedStem(u.arbitrary()?),
+            _ => Target::NonUtf8(u.arbitrary()?),
+        };
+        let kind = ALL_KINDS[u.int_in_range(0..=ALL_KINDS.len() - 1)?];
+        let spelling = match u.int_in_range(0..=5)? {
+            0 => Spelling::CurDir,
+            1 => Spelling::ParentDir,
+            _ => Spelling::Plain,
+        };
+        probes.push(Probe { target, kind, spelling });
+    }
+    Ok(to_case(&Case { tree: TreeSpec { entries }, roots, probes, real: Vec::new() }))
+}
